@@ -142,6 +142,11 @@ def match_known(sig: dict, entries: list[dict]) -> dict | None:
             continue
         ok = True
         for k, allowed in e.get("match", {}).items():
+            if k == "tags_all":
+                if not set(allowed) <= set(sig.get("tags", [])):
+                    ok = False
+                    break
+                continue
             v = sig.get(k)
             if isinstance(allowed, list):
                 if v not in allowed:
@@ -290,6 +295,9 @@ def drive(modname: str, tier: str, seed: int, replay_path: str | None = None) ->
         inconclusive.append("no evaluations")
 
     replay_files: list[str] = []
+    if (REPLAYS / prop).exists():
+        for old in (REPLAYS / prop).glob(f"{tier}-s{seed}-*.json"):
+            old.unlink()
     if fresh:
         d = REPLAYS / prop
         d.mkdir(parents=True, exist_ok=True)
